@@ -719,6 +719,7 @@ type sess struct {
 	xs     []*bytex.ReaderX
 	srcs   []*source
 	lastIn []byte // the slice handed to the latest raw write
+	skip   bool   // the rest of this open is given up (see doRead)
 	phase  string // "w" | "r"
 	midrw  bool
 	self   bool
@@ -953,6 +954,7 @@ func (s *sess) doOpen(c int, ks []int, self bool) {
 		self = false
 	}
 	s.self = self
+	s.skip = false
 	s.c = c
 	if self {
 		s.b = s.W
@@ -988,14 +990,19 @@ func ansE(a ans, withRem bool) tr.E {
 }
 
 // doRead performs one typed read on every live reader; returns whether the buffer reader gave a value.
+var hugeProbes int
+
 func (s *sess) doRead(a act) bool {
+	if s.skip {
+		return false
+	}
 	if a.T != "raw" {
 		a.Via, a.N = "-", 0
 	}
 	if a.T != "str" {
 		a.Lim = -1
 	}
-	if a.T == "str" && (a.Lim < 0 || a.Lim > 1<<20) {
+	if a.T == "str" { // also with a small limit: a decoder may allocate before it checks
 		// generator bias only: an unlimited ReadString on a stream reader allocates the announced
 		// length before reading; announced lengths above 1 MiB (possible only where the content
 		// is arbitrary or was rewritten) are read behind a limit
@@ -1010,7 +1017,16 @@ func (s *sess) doRead(a act) bool {
 			}
 		}
 		if huge {
-			a.Lim = 65535
+			// a handful of probes per run go through behind a limit; after that the open is given
+			// up (nothing is logged, nothing more is read until the next open): a decoder that
+			// allocates before it checks must not cost the run minutes
+			if hugeProbes++; hugeProbes > 3 {
+				s.skip = true
+				return false
+			}
+			if a.Lim < 0 || a.Lim > 65535 {
+				a.Lim = 65535
+			}
 		}
 	}
 	lenBefore := s.b.Len()
@@ -1028,6 +1044,10 @@ func (s *sess) doRead(a act) bool {
 			xa = append(xa, readX(x, a))
 		}
 	}
+	pulled := make([]int, 0, len(s.srcs)) // source bytes each stream reader has consumed (informational)
+	for _, src := range s.srcs {
+		pulled = append(pulled, s.c-len(src.rest()))
+	}
 	srcmut := !s.midrw && !bytes.Equal(s.image, s.priv)
 	s.k.emit(func() tr.E {
 		xr := make([]tr.E, 0, len(xa))
@@ -1036,7 +1056,7 @@ func (s *sess) doRead(a act) bool {
 		}
 		return tr.E{"ev": "call",
 			"a": tr.E{"op": "rd", "t": a.T, "lim": a.Lim, "n": a.N, "via": a.Via},
-			"r": tr.E{"b": ansE(rb, true), "x": xr, "srcmut": srcmut}}
+			"r": tr.E{"b": ansE(rb, true), "x": xr, "srcmut": srcmut, "pulled": pulled}}
 	})
 	if !s.k.lazy && a.T == "raw" && a.Via == "n" {
 		// what ReadN returned is the caller's: it overwrites it and appends into it, and goes on reading
@@ -1254,7 +1274,17 @@ func (s *sess) readBack(overLimit bool, rwAt int, late bool) {
 			s.doRead(readFor(s.rng, it, false))
 			return
 		}
-		if !s.doRead(readFor(s.rng, it, overLimit)) {
+		a := readFor(s.rng, it, overLimit)
+		if !s.doRead(a) {
+			if a.T == "str" && a.Lim >= 0 && a.Lim < len(it.v.b) && it.start+it.n <= s.c && !s.skip {
+				// a whole string refused for its length: the readers have all stopped at the same
+				// place inside it - reading goes on from there and they must go on agreeing
+				for k := 0; k < 4; k++ {
+					if !s.doRead(extraRead(s.rng)) {
+						break
+					}
+				}
+			}
 			s.afterRefusal()
 			return
 		}
